@@ -2,6 +2,7 @@
 and the Spec oracle for the decision order."""
 import itertools
 from gen import ribcommon as R
+from gen import ribenum as E
 
 def split_hops(rng, h):
     """a segment list with exactly h hops (AS_SEQUENCE counts its length, AS_SET one, confederation
@@ -41,8 +42,11 @@ class Prop:
     case_to_json = staticmethod(R.case_to_json)
     case_from_json = staticmethod(R.case_from_json)
 
+    enum_which = 'c02'
+
     def gen_cases(self, rng, tier):
-        cases = []
+        # classes enumerated on every run (gen/ribenum.py) come first
+        cases = E.all_enumerated(self.enum_which)
         n = 600 if tier == 'quick' else 6000
         for k in range(n):
             evpn = (k % 7 == 6)
@@ -174,6 +178,25 @@ class Prop:
 
     def classify(self, c, obs):
         tags = ['evpn' if c['evpn'] else 'ipv4', 'ops_%s' % ('<=8' if len(c['ops']) <= 8 else '9-16' if len(c['ops']) <= 16 else '17+')]
+        if c.get('cls'):
+            parts = c['cls'].split(':')
+            tags.append('enum:' + parts[0])
+            tags.append('enum:' + ':'.join(parts[:2]))
+            if parts[0] == 'sxo':
+                tags.append('enum:sxo:*:' + parts[2].split('+')[0])
+            else:
+                tags.append('enum:' + c['cls'])
         for o in c['ops']:
             tags.append('op_' + o[0] + (str(o[1]) if o[0] == 'drop' else ''))
+        if obs and obs[0] != -1:
+            for o, st in zip(c['ops'], obs):
+                nm = o[0] + (str(o[1]) if o[0] == 'drop' else ('_llgr' if o[0] == 'restale' and o[1] else ''))
+                if st[1]:
+                    tags.append('limit_exceeded')
+                if not st[0]:
+                    tags.append('silent_' + nm)
+                for ch in st[0]:
+                    tags.append('chg_%s_best%d_any%d_%s%s' % (nm, ch[2], ch[3], 'withdraw' if not ch[5] else 'paths', '_replaced' if ch[4] else ''))
+                if len(st[0]) > 1:
+                    tags.append('multi_change_' + nm)
         return sorted(set(tags))
